@@ -795,6 +795,11 @@ func validateLeaseSet2Inputs(
 	if err := validateDestinationSize(dest); err != nil {
 		return err
 	}
+	// The parser refuses a LeaseSet2 whose Destination declares a prohibited key type;
+	// do not build one from a caller-assembled Destination either.
+	if err := dest.Validate(); err != nil {
+		return oops.Errorf("invalid destination: %w", err)
+	}
 	if err := validateExpiresOffset(expiresOffset); err != nil {
 		return err
 	}
